@@ -12,8 +12,10 @@ EXTENDS Conv
 
 KnownP(c) == UNION {AllP(r) : r \in RecSet(c)}
 KnownU(c) == UNION {AllU(r) : r \in RecSet(c)}
-OwnerP(c, x) == CHOOSE r \in RecSet(c) : x \in AllP(r)
-OwnerU(c, x) == CHOOSE r \in RecSet(c) : x \in AllU(r)
+\* total (the trace validator evaluates the formulas on logged answers that need not fit the records)
+NoRec == Rec(<<0>>, <<0>>, {}, {}, NoPat)
+OwnerP(c, x) == IF \E r \in RecSet(c) : x \in AllP(r) THEN CHOOSE r \in RecSet(c) : x \in AllP(r) ELSE NoRec
+OwnerU(c, x) == IF \E r \in RecSet(c) : x \in AllU(r) THEN CHOOSE r \in RecSet(c) : x \in AllU(r) ELSE NoRec
 
 \* C04/C05: one owner per CURIE prefix and per URI prefix
 OneOwner(c) ==
@@ -50,7 +52,7 @@ SpecAP(c, m, md, p, id) == AnsPair(c, m, md, p, id)
 
 \* C01: the longest registered URI prefix wins
 LongestCand(c, u) == LET cand == {x \in KnownU(c) : IsPfx(x, u)} IN
-                     CHOOSE k \in cand : \A k2 \in cand : Len(k2) <= Len(k)
+                     IF cand = {} THEN <<0>> ELSE CHOOSE k \in cand : \A k2 \in cand : Len(k2) <= Len(k)
 P_C01(c, u, A(_, _, _)) ==
   LET cand == {x \in KnownU(c) : IsPfx(x, u)} IN
   IF cand = {} THEN /\ A("parse_uri", Default, u) = None1
